@@ -250,20 +250,24 @@ def catCol (ops : FeatOps Φ) (fs : List (Frame Φ β)) : Option (Frame Φ β) :
 def cat (ops : FeatOps Φ) (fs : List (Frame Φ β)) (dim : Int) : Option (Frame Φ β) :=
   if dim = 0 then catRow ops fs else if dim = 1 then catCol ops fs else none
 
+/-- the target branch of `__eq__`: both `None`, or both tensors with `torch.allclose(other.y, self.y)`. -/
+def yClose (closeY : β → β → Bool) : Option (List β) → Option (List β) → Bool
+  | some ya, some yb => all2 closeY yb ya
+  | none, none => true
+  | _, _ => false
+
+/-- one iteration of the `for stype_name, self_feat in self.feat_dict.items()` loop of `__eq__`. -/
+def featCloseIn (ops : FeatOps Φ) (bfeats : List (String × Φ)) (sφ : String × Φ) : Bool :=
+  match assoc sφ.1 bfeats with
+  | none => false
+  | some ψ => ops.close sφ.2 ψ
+
 /-- `__eq__` against another TensorFrame.  `closeY other self` is `torch.allclose(other.y, self.y)`.
     (`other.feat_dict[stype]` would raise `KeyError` for a missing stype; unreachable for
     constructed frames once the name tables are equal — modelled as `false`.) -/
 def eq (ops : FeatOps Φ) (closeY : β → β → Bool) (a b : Frame Φ β) : Bool :=
-  a.numRows ops == b.numRows ops &&
-  (match a.y, b.y with
-   | some ya, some yb => all2 closeY yb ya
-   | none, none => true
-   | _, _ => false) &&
-  dictEq a.names b.names &&
-  a.feats.all fun sφ =>
-    match assoc sφ.1 b.feats with
-    | none => false
-    | some ψ => ops.close sφ.2 ψ
+  a.numRows ops == b.numRows ops && yClose closeY a.y b.y && dictEq a.names b.names &&
+    a.feats.all (featCloseIn ops b.feats)
 
 end Frame
 
